@@ -41,8 +41,16 @@ Deepening round (what the value algebra alone does not see, and the bodies that 
                           (dedup / sort / retain / truncate after collect change number or order without an assignment)
   R3 elements-untouched   no single dependency / URI is modified in place (`uri.normalize()` on the "verbatim" clone)
   R3 pass2/base-dir, own-path   exact arguments of absolutize_path: parent(<source package.toml>) itself and the whole URI path
+                          (as written or in normal form: computed by a private helper / method, read from a context struct)
+Round 5: decisions on the result of a private classifier (`match Kind::from(dep) { Kind::A(p) => .. }`, a function whose
+every result is a literal variant of an enum of its own) are replaced by the classifier's own guards and payloads
+(C14_helpers.expand_enums), in every case analysis (R1 scheme-test, R1/R3 element mappings).
   R4 whole-fields         fields assigned after construction count (`d.platform = ..`); piecewise assignments are refused
-  R5 every-component      normalize_path visits path.components() completely (no break / early return / stopping adapter)
+  R5 every-component      normalize_path visits path.components() completely (no break / early return / stopping adapter):
+                          by a loop (for / while let) or fold / for_each around the push / pop or around the call of the
+                          private per-component helper that makes them; the components may be collected and viewed as a
+                          slice, of which `[1..]` may be visited instead when element [0] is a Prefix (slice pattern,
+                          `first()` + `&c[1..]`); nothing else advances the iterator (extra next / next_back / nth)
   R5 by-kind-only         push / pop are decided by the component kind alone (no file-system or state dependent guard)
   R7 carriers             TryFrom<PathBuf|&str> for PackageDescriptorDependency, the serialiser / deserialiser of the `uri`
                           fields and the serde names: the URI is parse(<argument>), the string written is the URI itself,
@@ -340,6 +348,7 @@ def run(ctx, rep):
     seq = seqs[PASSES[1]]
     table = {}
     abs_args = []   # (path argument, base argument) of every absolutize_path call of the element mapping (R3 exact-args)
+    NA = Normal(prog, sl, keep=(IDF, AP, UTIL + 'normalize_path'))
     if seq is not None and seq.mapped is not None:
         C2 = Cases(prog, sl, npd, stop=(AP,))
         for atoms, sh in elem_cases(C2, seq):
@@ -353,12 +362,15 @@ def run(ctx, rep):
                 ap = strip(strip(sh[1])[2][0])
                 good = ap[0] == 'call' and ap[1] == AP
                 if good:
-                    pth, par = strip(ap[2][0]), strip(ap[2][1])
-                    abs_args.append((ap[2][0], ap[2][1]))
+                    # (in normal form: a base directory / path computed by a private helper or read from a field of a
+                    #  context struct built by the entry point is what that helper returns / what was put into the field)
+                    #  (each argument as written and in normal form: the element itself is named as the pass sees it)
+                    a_pth, a_par = (ap[2][0], NA.nf(ap[2][0])), (ap[2][1], NA.nf(ap[2][1]))
+                    abs_args.append((a_pth, a_par))
                     # the path of this element's URI, against the parent of the source package.toml
                     good = any(x[0] == 'call' and x[1].endswith('::path') and len(x[2]) == 1 and strip(x[2][0])[0] == 'field' and
-                               strip(x[2][0])[2] == 'uri' and same(strip(x[2][0])[1], seq.elem) for x in walk(pth)) and \
-                        any(x[0] == 'call' and x[1] == 'std::path::Path::parent' and is_param(x[2][0], npd, 1) for x in walk(par))
+                               strip(x[2][0])[2] == 'uri' and same(strip(x[2][0])[1], seq.elem) for pth in a_pth for x in walk(strip(pth))) and \
+                        any(x[0] == 'call' and x[1] == 'std::path::Path::parent' and is_param(x[2][0], npd, 1) for par in a_par for x in walk(strip(par)))
                 row = ('absolutize', good, subj_ok)
             else:
                 row = (shape_sig(sh), False, subj_ok)
@@ -372,16 +384,22 @@ def run(ctx, rep):
     # between string / path representations and the (unobservable) fallback for a path without parent
     plain = not fmt_not_plain(sl, build_fns.values())
     base_ok = own_ok = bool(abs_args)
-    for pa, ba in abs_args:
+
+    def is_base(ba):
         b = carried(sl, ba, fmt=plain)
-        base_ok = base_ok and b[0] == 'call' and b[1] == 'std::path::Path::parent' and len(b[2]) == 1 and is_param(carried(sl, b[2][0]), npd, 1)
+        return b[0] == 'call' and b[1] == 'std::path::Path::parent' and len(b[2]) == 1 and is_param(carried(sl, b[2][0]), npd, 1)
+
+    def is_own(pa):
         p = carried(sl, pa, fmt=plain)
         u = carried(sl, p[2][0]) if p[0] == 'call' and len(p[2]) == 1 else ('unknown',)
-        own_ok = own_ok and p[0] == 'call' and p[1].endswith('::path') and u[0] == 'field' and u[2] == 'uri' and same(u[1], seq.elem)
+        return p[0] == 'call' and p[1].endswith('::path') and u[0] == 'field' and u[2] == 'uri' and same(u[1], seq.elem)
+    for pas, bas in abs_args:
+        base_ok = base_ok and any(is_base(ba) for ba in bas)
+        own_ok = own_ok and any(is_own(pa) for pa in pas)
     rep.check(base_ok, 'R3', 'pass2/base-dir', w(npd), 'relative paths are resolved against parent(<source package.toml>)',
-              'the base directory of the absolutisation is %s' % [vstr(carried(sl, ba))[:120] for pa, ba in abs_args])
+              'the base directory of the absolutisation is %s' % [vstr(carried(sl, bas[-1]))[:120] for pas, bas in abs_args])
     rep.check(own_ok, 'R3', 'pass2/own-path', w(npd), 'the absolutised path is the whole path of the dependency URI',
-              'the path handed to absolutize_path is %s' % [vstr(carried(sl, pa))[:160] for pa, ba in abs_args])
+              'the path handed to absolutize_path is %s' % [vstr(carried(sl, pas[-1]))[:160] for pas, bas in abs_args])
     ap = prog.fn(UTIL + 'absolutize_path')
     rep.analysed(ap)
     arms = {}
@@ -454,14 +472,19 @@ def run(ctx, rep):
         return any(cd.enum == 'std::option::Option' and cd.outcome == frozenset({'Some'}) for cd in tops) and \
             any(cd.enum == 'std::path::Component' and 'Normal' in cd.outcome and cd.outcome <= {'Normal', 'CurDir', 'ParentDir'} for cd in tops)
     comp = {}
+    counted = set()
     bare_pops = []
     for e, stk in path_effects():
         rep.analysed(e.call.fn)
         gs = [cd for cd, views, subj in guards_of(E, e)]
         cds = [cd for cd in gs if cd.kind == 'variant' and cd.enum == 'std::path::Component' and not top_cond(cd)]
-        per_component = e.forall is not None or e.call.fn.in_loop(e.call.bb)
+        per_component = e.forall is not None or e.call.fn.in_loop(e.call.bb) or any(lk.call.fn.in_loop(lk.call.bb) for lk in e.chain)
         # (`RootDir | Normal(..) => push` is one arm for two kinds)
-        if cds and cds[-1].outcome and per_component:
+        # (one push / pop instruction reached along one call chain is one step of the rule, also when the expansion reports
+        #  it once per alternative of the collection the loop runs over: `match front { [Prefix, rest @ ..] => rest, all => all }`)
+        site = (e.call.fn.path, e.call.bb, tuple((lk.call.fn.path, lk.call.bb) for lk in e.chain), cds[-1].outcome if cds else None)
+        if cds and cds[-1].outcome and per_component and site not in counted:
+            counted.add(site)
             for kind in sorted(cds[-1].outcome):
                 comp.setdefault(kind, []).append(e.call.name.split('::')[-1])
         if stk and e.kind == 'PATH_POP' and not pop_is_pathbuf_pop(e):
@@ -508,35 +531,212 @@ def run(ctx, rep):
     TOTAL = (iters.IT + 'fold', iters.IT + 'for_each')
     KEEPS_ALL = {iters.IT + 'peekable', iters.IT + 'by_ref', iters.IT + 'fuse', 'std::iter::IntoIterator::into_iter'}
     visits, bad, unknown = [], [], []
-    for e, stk in path_effects():
-        g = e.call.fn
-        loops = [L for L in find_loops(g, sl) if e.call.bb in L.body and e.call.bb != L.header]
-        coll = None
-        if loops:
-            L = min(loops, key=lambda L: len(L.body))
-            if not loop_total(g, L):
-                bad.append('%s: the loop over the components can be left before the last component' % e.call.name.split('::')[-1])
+    SLICE_VIEW = {'std::vec::Vec::<T, A>::as_slice', 'std::ops::Deref::deref', 'core::slice::<impl [T]>::iter', iters.IT + 'copied', iters.IT + 'cloned'}
+
+    _adv = {}
+
+    def only_prefix(f):
+        """the predicate closure answers true for Prefix components only (`next_if(|c| matches!(c, Component::Prefix(..)))`)"""
+        f = unwrapped(f)
+        cl = prog.fns.get(f[1]) if f[0] == 'closure' else None
+        if cl is None:
+            return False
+        rows = Cases(prog, sl, cl).rows(cl)
+        for bi, v, conds, extra in rows:
+            v = unwrapped(v)
+            if v == ('const', False):
                 continue
-            coll = E.subst(L.collection, e.mapping) if e.mapping and L.collection is not None else L.collection
-        elif g.kind == 'Closure' and e.chain:
-            lk = e.chain[-1]
-            if lk.call.decl in TOTAL and lk.call.args:
-                coll = sl.operand(lk.call.fn, lk.call.args[0])
-                coll = E.subst(coll, lk.mapping) if lk.mapping else coll
+            if v != ('const', True) or not any(cd.kind == 'variant' and cd.enum == 'std::path::Component' and cd.outcome == frozenset({'Prefix'}) and
+                                               cd.subject is not None and unwrapped(cd.subject)[0] == 'param' for cd in conds):
+                return False
+        return bool(rows)
+
+    def advanced_elsewhere(g, next_call, coll0=None):
+        key = (g.path, next_call.bb if next_call is not None else None)
+        if key in _adv:
+            return _adv[key]
+        from .lib.guards import conditions as _conds
+        out = []
+        live = g.reachable(0)
+        for pl, c in mut_borrows(g):
+            ty = g.local_ty(pl[0]) or ''
+            if 'std::path::Component' not in ty or re.match(r"^(&(?:'\w+ )?(?:mut )?)*(std::vec::Vec<|alloc::vec::Vec<|\[|std::option::Option<)", ty):
+                continue
+            if c is None:
+                out.append('a stored mutable borrow')
+                continue
+            if c.bb not in live or (next_call is not None and c.bb == next_call.bb):
+                continue
+            last = (c.decl or c.name or '?').rsplit('::', 1)[-1]
+            if last in ('peek', 'peek_mut', 'size_hint', 'len', 'as_path'):
+                continue
+            if last in ('by_ref', 'into_iter') and coll0 is not None and any(x[0] == 'call' and len(x) > 3 and x[3] is not None and tuple(x[3]) == (g.path, c.bb) for x in walk(coll0)):
+                # (`for c in components.by_ref()`: the borrow is the collection the visiting loop / consumer runs over)
+                continue
+            if last in ('next', 'next_if', 'next_if_eq') and not g.in_loop(c.bb) and \
+                    any(cd.kind == 'variant' and cd.enum == 'std::path::Component' and cd.outcome == frozenset({'Prefix'}) for cd in _conds(g, c.bb, sl)):
+                continue
+            if last == 'next_if' and not g.in_loop(c.bb) and len(c.args) == 2 and only_prefix(sl.operand(g, c.args[1])):
+                continue
+            out.append(last)
+        _adv[key] = sorted(set(out))
+        return _adv[key]
+
+    def seq_view(v):
+        """the sequence a slice view stands for (`v.as_slice()`, `&*v`, `&v[..]`)"""
+        v = unwrapped(v)
+        for _ in range(4):
+            if v[0] == 'call' and len(v[2]) == 1 and v[1] in ('std::vec::Vec::<T, A>::as_slice', 'std::ops::Deref::deref'):
+                v = unwrapped(v[2][0])
+            elif v[0] == 'call' and v[1] == 'std::ops::Index::index' and len(v[2]) == 2 and unwrapped(v[2][1])[0] == 'agg' and unwrapped(v[2][1])[1] == 'std::ops::RangeFull':
+                v = unwrapped(v[2][0])
             else:
-                unknown.append('%s runs in a closure handed to %s' % (e.call.name.split('::')[-1], (lk.call.decl or lk.call.name or '?').split('::')[-1]))
+                break
+        return v
+
+    def all_components(coll):
+        """coll is `path.components()` itself, at most wrapped by adapters that neither drop nor reorder elements, or
+        collected into a Vec and viewed as a slice (a finite sequence: the same elements in the same order)"""
+        names, src = adapters(coll) if coll is not None else ([], ('unknown',))
+        names = [n for n in names if n not in iters.COLLECTING]
+        srcv = unwrapped(src)
+        for _ in range(3):
+            srcv = seq_view(srcv)
+            if srcv[0] == 'call' and srcv[1] in iters.COLLECTING and len(srcv[2]) == 1:
+                n2, s2 = adapters(srcv)
+                names, srcv = names + [n for n in n2 if n not in iters.COLLECTING], unwrapped(s2)
+        return set(names) <= KEEPS_ALL | SLICE_VIEW and srcv[0] == 'call' and srcv[1] == 'std::path::Path::components' and len(srcv[2]) == 1 and \
+            is_param(carried(sl, srcv[2][0]), npf, 0)
+
+    def drops(coll):
+        """an adapter that is known to leave out / reorder elements sits on the collection"""
+        names, src = adapters(coll) if coll is not None else ([], ('unknown',))
+        return bool(set(names) & (iters.FEWER | iters.TRUNCATING | {iters.IT + 'rev', 'std::iter::DoubleEndedIterator::rev', iters.IT + 'filter_map', iters.IT + 'flat_map'}))
+
+    def rest_of(c):
+        """X when c is the sub-slice `X[1..]` (slice pattern `[first, rest @ ..]` or `&x[1..]`)"""
+        if c[0] == 'index' and len(c) == 3 and c[2] == '[1..-0]':
+            return c[1]
+        if c[0] == 'call' and c[1] == 'std::ops::Index::index' and len(c[2]) == 2:
+            r = unwrapped(c[2][1])
+            if r[0] == 'agg' and r[1] == 'std::ops::RangeFrom' and dict(r[3]).get('start') == ('const', 1):
+                return c[2][0]
+        return None
+
+    def front_is_prefix(g, whole):
+        """every place of g where a sub-slice is taken is the sub-slice `[1..]`, reached only when element [0] of that same
+        slice is a Prefix component (`[first @ Component::Prefix(..), rest @ ..]`, `Some(Component::Prefix(..)) = x.first()`):
+        what is left out of the visit is the Windows path prefix that can only come first, as with `peek()` + `next()` on
+        the iterator.  -> True | False (something else is left out) | None (a test on the first element that is not understood)"""
+        from .lib.guards import conditions as _conds
+        wv = canon(seq_view(whole))
+        sites = []
+        live = g.reachable(0)
+        for bi, b in enumerate(g.blocks):
+            if bi not in live:
                 continue
-        else:
+            for st in b['s']:
+                rv = st[2] if st[0] == '=' and len(st) > 2 and isinstance(st[2], dict) else None
+                pl = rv.get('p') if rv is not None else None
+                if isinstance(pl, list) and any(isinstance(x, str) and re.match(r'^\[\d+\.\.-?\d+\]$', x) for x in pl[1:]):
+                    sites.append((bi, pl[-1] == '[1..-0]'))
+        for c in g.calls:
+            if c.bb in live and (c.decl or c.name) == 'std::ops::Index::index' and len(c.args) == 2:
+                r = unwrapped(sl.operand(g, c.args[1]))
+                if r[0] == 'agg' and r[1] == 'std::ops::RangeFull':
+                    continue
+                if r[0] == 'agg' and (r[1] or '').startswith('std::ops::Range'):
+                    sites.append((c.bb, r[1] == 'std::ops::RangeFrom' and dict(r[3]).get('start') == ('const', 1) and canon(seq_view(sl.operand(g, c.args[0]))) == wv))
+        if not sites:
+            return False
+        res = True
+        for bi, one in sites:
+            if not one:
+                return False
+            ok = about_first = False
+            for cd in _conds(g, bi, sl):
+                sv = cd.subject if cd.subject is not None else cd.value
+                firsts = [x for x in walk(sv) if (x[0] == 'index' and len(x) == 3 and x[2] == '[0]' and canon(seq_view(x[1])) == wv) or
+                          (x[0] == 'call' and x[1].endswith(('::first', '::get')) and x[2] and canon(seq_view(x[2][0])) == wv)] if sv is not None else []
+                about_first = about_first or bool(firsts)
+                s0 = unwrapped(cd.subject) if cd.subject is not None else None
+                if cd.kind == 'variant' and cd.enum == 'std::path::Component' and cd.outcome == frozenset({'Prefix'}) and s0 is not None and \
+                        ((s0[0] == 'index' and len(s0) == 3 and s0[2] == '[0]' and canon(seq_view(s0[1])) == wv) or
+                         (s0[0] == 'call' and s0[1] == 'core::slice::<impl [T]>::first' and len(s0[2]) == 1 and canon(seq_view(s0[2][0])) == wv)):
+                    ok = True
+            if not ok:
+                if not about_first:
+                    return False
+                res = None
+        return res
+
+    for e, stk in path_effects():
+        # where the components are visited: the innermost loop around the effect or around a call on the way to it (the
+        # per-component step may be a private helper called from the loop body), or the total consumer (fold / for_each) the
+        # closure on the way was handed to
+        levels = [(e.call.fn, e.call.bb, e.mapping, e.chain[-1] if e.chain else None)]
+        for i in range(len(e.chain) - 1, -1, -1):
+            lk = e.chain[i]
+            levels.append((lk.call.fn, lk.call.bb, lk.mapping, e.chain[i - 1] if i > 0 else None))
+        coll = coll0 = verdict_ = visit_fn = None
+        for g, bb, mp, outer in levels:
+            loops = [L for L in find_loops(g, sl) if bb in L.body and bb != L.header]
+            if loops:
+                L = min(loops, key=lambda L: len(L.body))
+                if not loop_total(g, L):
+                    verdict_ = ('bad', '%s: the loop over the components can be left before the last component' % e.call.name.split('::')[-1])
+                else:
+                    coll0 = L.collection
+                    coll = E.subst(L.collection, mp) if mp and L.collection is not None else L.collection
+                    verdict_, visit_fn = ('loop', None), g
+                break
+            if outer is not None and outer.call.decl in TOTAL and outer.call.args:
+                # (the step handed to fold / for_each, as a closure or as a function item)
+                coll = coll0 = sl.operand(outer.call.fn, outer.call.args[0])
+                coll = E.subst(coll, outer.mapping) if outer.mapping else coll
+                verdict_, visit_fn = ('total', None), outer.call.fn
+                break
+            if g.kind == 'Closure' and outer is not None:
+                verdict_ = ('unknown', '%s runs in a closure handed to %s' % (e.call.name.split('::')[-1], (outer.call.decl or outer.call.name or '?').split('::')[-1]))
+                break
+        if verdict_ is None:
             # outside the visit of the components: the start value (a Windows path prefix taken off the front) is not
             # part of the per-component rule; anything else is not understood
             pre = [cd for cd, views, subj in guards_of(E, e) if cd.kind == 'variant' and cd.enum == 'std::path::Component' and not top_cond(cd)]
             if not (pre and all(cd.outcome == frozenset({'Prefix'}) for cd in pre)):
                 unknown.append('%s outside the visit of the components' % e.call.name.split('::')[-1])
             continue
-        names, src = adapters(coll) if coll is not None else ([], ('unknown',))
-        srcv = unwrapped(src)
-        if set(names) <= KEEPS_ALL and srcv[0] == 'call' and srcv[1] == 'std::path::Path::components' and len(srcv[2]) == 1 and is_param(carried(sl, srcv[2][0]), npf, 0):
+        if verdict_[0] == 'bad':
+            bad.append(verdict_[1])
+            continue
+        if verdict_[0] == 'unknown':
+            unknown.append(verdict_[1])
+            continue
+        # ... and nothing but that loop / consumer advances the iterator over the components (`components.next()` inside the
+        # body skips a component, `components.next_back()` beforehand drops the last one); looking at the front (`peek`) is
+        # not advancing, and taking the Windows path prefix off the front is the start value of the rule
+        for what in advanced_elsewhere(visit_fn, L.next_call if verdict_[0] == 'loop' else None, coll0):
+            unknown.append('the iterator over the components is also advanced by %s' % what)
+        # (a start value / rest decided by a `match` on the front of the collected components gives one alternative each)
+        cv = unwrapped(coll) if coll is not None else ('unknown',)
+        calts = list(cv[1]) if cv[0] == 'phi' else [coll]
+        status = [] if coll is not None else ['bad']
+        for c1 in calts:
+            c1u = unwrapped(c1)
+            whole = rest_of(c1u)
+            if whole is not None:
+                fp = front_is_prefix(visit_fn, whole) if all_components(whole) and visit_fn.path == npf.path else False
+                status.append('ok' if fp else ('unk' if fp is None else 'bad'))
+            elif all_components(c1):
+                status.append('ok')
+            else:
+                # (an adapter known to leave out elements is a breach; a view of the components that is not understood is not)
+                status.append('bad' if drops(c1) or not any(x[0] == 'call' and x[1] == 'std::path::Path::components' for x in walk(c1u)) else 'unk')
+        good = False if 'bad' in status else (None if 'unk' in status else True)
+        if good:
             visits.append(e.call.name.split('::')[-1])
+        elif good is None:
+            unknown.append('%s: not understood which components are visited: %s' % (e.call.name.split('::')[-1], vstr(coll)[:100] if coll is not None else '?'))
         else:
             bad.append('%s: the components visited are %s' % (e.call.name.split('::')[-1], vstr(coll)[:100] if coll is not None else '?'))
     if unknown and not bad:
